@@ -498,8 +498,12 @@ Definition model_110 (h : list pnop) : list Z := outs_or_panic (pn_run pn_new_sc
 Definition spec_110 (h : list pnop) : list Z := flat_map enc_pn (pn_spec_outs h).
 
 (** timeouts: integers >= 2^61 stand for [Duration::MAX] (larger than any elapsed time) *)
+(** timeouts beyond 64-bit nanoseconds are sentinels: 2^61+1 = Duration::from_secs(2^55),
+    2^61+2 = 2^64+1 ns, any other value >= 2^61 = Duration::MAX *)
 Definition dec_timeout (z : Z) : N :=
-  if Z.leb 2305843009213693952 z then 18446744073709551616000000000%N else nz z.
+  if Z.eqb z 2305843009213693953 then 36028797018963968000000000%N
+  else if Z.eqb z 2305843009213693954 then 18446744073709551617%N
+  else if Z.leb 2305843009213693952 z then 18446744073709551616000000000%N else nz z.
 
 (** * polling scanner: C13 / C14 *)
 Fixpoint dec_sops (l : list Z) : list sop :=
@@ -1069,7 +1073,10 @@ Definition check (tag : Z) (inp obs : list Z) : verdict :=
   | 11, [v; x; y; z] => verdict_of obs (model_11 (dec_struct v x y z)) (spec_11 (dec_struct v x y z))
   | 12, [a] => verdict_of obs (model_12 (nz a)) (spec_12 (nz a))
   | 13, [b] => verdict_of obs (model_13 (nz b)) (spec_13 (nz b))
-  | 20, [k; s0; a; c] => verdict_of obs (acc_obs_kind k (nz s0, nz a, nz c)) (acc_spec (nz s0, nz a, nz c))
+  | 20, [k; s0; a; c] =>
+      (* the accessor list in method syntax on the concrete type, then a flag: the same list
+         through a generic parameter (always the trait's methods) is identical *)
+      verdict_of obs (acc_obs_kind k (nz s0, nz a, nz c) ++ [1]) (acc_spec (nz s0, nz a, nz c) ++ [1])
   | 30, [k1; k2; conv; s0; a; c] =>
       (* C03 is about the implementations agreeing with *each other*: the two accessor lists
          must be equal and the bytes may differ only by canonicalisation *)
